@@ -1,7 +1,7 @@
 SPECIFICATION Spec
 CONSTANTS
-  MaxT = 5
-  MaxG = 3
+  MaxT = 4
+  MaxG = 2
   Impl = "fixed"
   Gives = TRUE
 INVARIANTS TypeOK ReachClosed I1 I2 NoTornUnlock
